@@ -427,8 +427,10 @@ func LoadReplay(path string) (*ReplayFile, error) {
 // matters. Returns the number of runs that ended in a panic other than a goroutine leak.
 func FreeRun(t *testing.T, sc *Scenario, n int, deadline time.Time) (runs int, panics int) {
 	for i := 0; i < n && time.Now().Before(deadline); i++ {
-		x := &Exec{T: t}
-		func() {
+		// a subtest, so that a report of the race detector (which fails the test it belongs to) does not end
+		// the whole pass
+		t.Run("free", func(t *testing.T) {
+			x := &Exec{T: t}
 			defer func() {
 				if r := recover(); r != nil {
 					msg := fmt.Sprint(r)
@@ -444,7 +446,7 @@ func FreeRun(t *testing.T, sc *Scenario, n int, deadline time.Time) (runs int, p
 				x.S = s
 				sc.Body(x)
 			})
-		}()
+		})
 		runs++
 	}
 	return
